@@ -281,15 +281,28 @@ def make_dataset(rng, idx, shape, opts, label=None, force=None):
         d.add_component(common.rand_ints(rng, shape, 0, 3), "k")
         info["numeric"].append("k")
     if nd == 1 and (rng.random() < 0.7 or force.get("cat")):
-        if rng.random() < 0.5:
+        r = rng.random()
+        if force.get("cat") == "all_present":
+            r = 0.5
+        if r < 0.35:
             d.add_component(common.rand_cats(rng, n), "c")
+        elif r < 0.65:
+            # explicit, non-alphabetical category order in which EVERY category occurs in the column
+            from glue.core.component import CategoricalComponent
+            order = rng.sample(["a", "b", "c", "dd"], min(n, rng.randint(2, 4)))
+            if order == sorted(order):
+                order = order[::-1]
+            col = list(order) + [rng.choice(order) for _ in range(n - len(order))]
+            rng.shuffle(col)
+            d.add_component(CategoricalComponent(np.array(col), categories=np.array(order)), "c")
+            info["custom_categories"] = "all_present"
         else:
             # custom category order, with categories that do not occur in the column
             from glue.core.component import CategoricalComponent
             order = ["dd", "zz", "c", "a", "b", "q"]
             rng.shuffle(order)
             d.add_component(CategoricalComponent(common.rand_cats(rng, n), categories=np.array(order)), "c")
-            info["custom_categories"] = True
+            info["custom_categories"] = "with_absent"
         info["cat"].append("c")
         if rng.random() < 0.5:
             d.add_component(common.rand_cats(rng, n, cats=("x", "yy", "a")), "c2")
@@ -793,6 +806,17 @@ def build_session(rng, opts=None, workdir=None):
     if (probe in PROBES_NEED_TWO or opts.get("want_link") or opts.get("want_join")) and nds < 2:
         nds = 2
     want_leaf, want_link, want_join = opts.get("want_leaf"), opts.get("want_link"), opts.get("want_join")
+    # history "remove_last": joins / links / groups are built with all datasets, then the last dataset is removed
+    # from the collection (it stays reachable through a remaining dataset's key join and the groups' selections)
+    history = opts.get("history")
+    pair = (0, 1)
+    if history == "remove_last":
+        nds = max(nds, rng.choice([2, 3]))
+        pair = (0, nds - 1)
+        if rng.random() < 0.6:
+            want_join = rng.choice(JOIN_SHAPES)
+        else:
+            want_link = "JoinLink"
     if probe == "state:slice_later_dataset" and rng.random() < 0.7:
         want_join = rng.choice(JOIN_SHAPES)      # the dataset the slice refers to is also key-joined to the first one
     files = bool(opts.get("files")) and workdir is not None
@@ -814,7 +838,7 @@ def build_session(rng, opts=None, workdir=None):
         shapes[0] = (rng.randint(2, 6),)
         force[0]["cat"] = True
     if want_link == "JoinLink" or want_join:
-        for i in (0, 1):
+        for i in pair:
             shapes[i] = (rng.randint(2, 6),)
             force[i]["k"] = True
     if want_link == "WCSLink":
@@ -847,16 +871,16 @@ def build_session(rng, opts=None, workdir=None):
             edges = [(0, 1)] if rng.random() < 0.8 else []
         else:
             edges = rng.choice([[(0, 1)], [(0, 1), (1, 2)], [(0, 1), (0, 2)], [(0, 2), (1, 2)], [(1, 2)], []])
-        if ((probe and probe.startswith("link:")) or want_link) and (0, 1) not in edges:
-            edges = [(0, 1)]
+        if ((probe and probe.startswith("link:")) or want_link) and pair not in edges:
+            edges = [pair]
         if want_join:
-            edges = [e for e in edges if e != (0, 1)]
+            edges = [e for e in edges if e != pair]
         for n_edge, (i, j) in enumerate(edges):
             if rng.random() < 0.5:
                 i, j = j, i
-            if probe and probe.startswith("link:") and {i, j} == {0, 1}:
+            if probe and probe.startswith("link:") and {i, j} == set(pair):
                 kind = probe[5:]
-            elif want_link and {i, j} == {0, 1}:
+            elif want_link and {i, j} == set(pair):
                 kind = want_link
             else:
                 kind = rng.choice(LINK_KINDS)
@@ -883,7 +907,7 @@ def build_session(rng, opts=None, workdir=None):
             shape = rng.choice(JOIN_SHAPES)
             if want_join:
                 shape = want_join
-                i, j = rng.choice([(0, 1), (1, 0)])
+                i, j = rng.choice([pair, pair[::-1]])
             try:
                 ok = make_join(rng, shape, ses.ds[i], ses.ds[j])
             except Exception as exc:
@@ -914,6 +938,20 @@ def build_session(rng, opts=None, workdir=None):
             apply_style(grp.style, st)
             styled = True
         desc["groups"].append({"on": k, "sig": sig, "label": label, "styled": styled, "style_extremes": tags})
+    if history == "remove_last":
+        last = nds - 1
+        # a selection over the attribute of the dataset that is about to leave (reaches the others through the join)
+        kind = rng.choice(["inequality", "range", "multirange", "inequality_cidcid"])
+        state, sig = make_leaf(rng, kind, ses.ds[last], dict(opts, derived_kinds=[]))
+        sig.update(leaf_kind=kind, nested=False)
+        if "derived" in sig.get("att", ""):
+            state, sig = ses.ds[last].data.id["w"] > 0, {"state": "InequalitySubsetState", "op": "gt", "form": "cid_const",
+                                                        "att": "value", "leaf_kind": "inequality", "nested": False}
+        dc.new_subset_group(subset_state=state, label="on_removed")
+        desc["groups"].append({"on": last, "sig": sig, "label": "on_removed", "styled": False})
+        dc.remove(ses.ds[last].data)
+        desc["removed"] = last
+        desc["history"] = "remove_last:" + ("join_on_key" if desc["joins"] else "JoinLink")
     # a named leaf kind, once at top level and once below a composite (where the general restrictions admit it)
     if want_leaf:
         cand = [k for k in range(nds) if leaf_domain_ok(want_leaf, ses.ds[k], k, True, opts)]
